@@ -972,7 +972,9 @@ class FortranReaderBase:
                 # statement (rather than the full line). Subsequent
                 # statements need to be processed into Line
                 # objects.
-                items.append(item.copy(repmap(first.strip())))
+                first = first.strip()
+                if first or item.label is not None or item.name is not None:
+                    items.append(item.copy(repmap(first)))
                 for line in split_line_iter:
                     # Any subsequent statements have not been processed
                     # before, so new Line objects need to be created.
@@ -989,6 +991,9 @@ class FortranReaderBase:
                             repmap(line), item.span, label, name, item.reader
                         )
                         items.append(new_line)
+                if not items:
+                    # The line only contained statement separators.
+                    return self._next(ignore_comments)
                 items.reverse()
                 for newitem in items:
                     self.fifo_item.appendleft(newitem)
